@@ -1,6 +1,8 @@
 package main
 
 import (
+	"path/filepath"
+	"os"
 	"fmt"
 	"strings"
 
@@ -286,6 +288,48 @@ func checkC16(r *Run) {
 		if c < 2 {
 			r.Sample(map[string]any{"case": c, "tags": tags})
 		}
+	}
+	c16Pipelines(r)
+}
+
+// c16Pipelines: the derivation as a real run performs it — one pipeline, several output languages, each with its own
+// pass chain: the builders handed to each language (builders.derived hook) must be the ones derived from the schemas
+// of *that* language.
+func c16Pipelines(r *Run) {
+	np := r.n(6, 60)
+	dir, _ := os.MkdirTemp(scratchDir(), "c16-")
+	defer os.RemoveAll(dir)
+	events := 0
+	for c := 0; c < np; c++ {
+		format := []string{"jsonschema", "cue", "openapi"}[c%3]
+		rng := newRNG("C16p", r.Seed, c)
+		am := genAM(rng, capsFor(format), "pk", "builders")
+		sub := filepath.Join(dir, fmt.Sprintf("p%d", c))
+		in, txt := materializeAM(sub, am, format)
+		cfg := pipeCfg{Inputs: []pipeInput{in}, Types: true, Builders: true, OutDir: filepath.Join(sub, "out", "%l")}
+		for _, l := range []string{"go", "typescript", "python", "java", "php"} {
+			cfg.Langs = append(cfg.Langs, langCfg{Name: l, Flags: defaultLangFlags(l)})
+		}
+		seen := map[string]bool{}
+		withSink(func(site string, args ...any) {
+			if site != "builders.derived" {
+				return
+			}
+			lang, schemas, builders := args[0].(string), args[1].(ast.Schemas), args[2].(ast.Builders)
+			events++
+			seen[lang] = true
+			r.Eval()
+			r.Distinct(fmt.Sprintf("p%d-%s", c, lang))
+			if cls, detail := compareBuilders(schemas, builders); cls != "" {
+				r.Violation("pipeline-derivation/"+cls, fmt.Sprintf("language %s of a five-language run (%s input): %s", lang, format, detail), map[string]any{"format": format, "schema": string(txt), "language": lang})
+			}
+		}, func() {
+			_ = runPipelineYAML(sub, "pipeline.yaml", cfg.YAML(), filepath.Join(sub, "out"))
+		})
+	}
+	r.Count("hook.builders.derived_events", events)
+	if events == 0 {
+		r.Inconclusive("hook builders.derived never fired in the pipeline workload")
 	}
 }
 
